@@ -186,14 +186,13 @@ func (x *Exec) checkRun(rec *StepRecord) {
 					firedOSWrite = true
 				} else if e.Path == "gengo.sum" {
 					sumReadFault = true
-				} else if e.Exec < 0 {
+				} else if e.Exec < 0 && e.Nth >= 1 {
+					// during load a source file is opened first by the parser, then by the directory hash
 					hashFaultPkgs[filepath.Dir(e.Path)] = true
 				}
 			case "os.read":
 				if e.Path == "gengo.sum" {
 					sumReadFault = true
-				} else if e.Exec < 0 {
-					hashFaultPkgs[filepath.Dir(e.Path)] = true
 				}
 			}
 		}
@@ -201,6 +200,14 @@ func (x *Exec) checkRun(rec *StepRecord) {
 	for _, f := range run.Faults {
 		if f.Do == "edit" {
 			editPaths[f.EditPath] = true
+		}
+	}
+
+	// a package whose directory hash was made to fail has no load-time hash
+	for _, pi := range rec.Local {
+		if hashFaultPkgs[filepath.Clean(m.Pkgs[pi].Dir)] {
+			delete(rec.Hload, m.ImportPath(pi))
+			x.Env.Stats.Add("probe/hash-failed-at-load", 1)
 		}
 	}
 
@@ -231,6 +238,9 @@ func (x *Exec) checkRun(rec *StepRecord) {
 		x.violate("C07", "T1", class, d, map[string]string{"path": p})
 	}
 
+	if rec.Killed || firedOSWrite {
+		x.afterCrash = true
+	}
 	if rec.Killed {
 		x.checkKilled(rec)
 		x.Model.AfterExternal(x.Root)
@@ -251,7 +261,13 @@ func (x *Exec) checkRun(rec *StepRecord) {
 			x.violate("C07", "T4", "load-failure-changed-tree", strings.Join(changed, ","), nil)
 		}
 		if !firedAny && !x.expectLoadFailure() {
-			x.violate(x.Sc.Property, "X0", "unexpected-load-error", firstLine(resp.LoadErr), map[string]string{"error": firstLine(resp.LoadErr)})
+			if x.afterCrash {
+				// the next run must regenerate instead of choking on half-written output
+				x.violate("C02", "E4", "wedged-load-fails", "after a crashed or failed run the module no longer loads: "+firstLine(resp.LoadErr), map[string]string{"error": firstLine(resp.LoadErr)})
+				x.wedged = true
+			} else {
+				x.violate(x.Sc.Property, "X0", "unexpected-load-error", firstLine(resp.LoadErr), map[string]string{"error": firstLine(resp.LoadErr)})
+			}
 		}
 		x.Model.AfterExternal(x.Root)
 		return
